@@ -13,9 +13,7 @@ import (
 
 // VerifDeliver runs the body of Run's `case msg := <-lh.MessagesChannel`.
 func (lh *WorkerLoop) VerifDeliver(msg *interfaces.ConsensusRawMessage) {
-	parsedMessage := interfaces.ToConsensusMessage(msg)
-	lh.logger.Debug("LHFLOW LHMSG WORKERLOOP RECEIVED %v from %v for H=%d V=%d", parsedMessage.MessageType(), parsedMessage.SenderMemberId(), parsedMessage.BlockHeight(), parsedMessage.View())
-	lh.filter.HandleConsensusRawMessage(msg)
+	lh.handleRawMessage(msg)
 }
 
 // VerifUpdateState runs the body of Run's `case receivedBlockWithProof := <-lh.workerUpdateStateChannel`.
